@@ -19,33 +19,34 @@ set_option linter.unusedSectionVars false
 
 variable {ι : Type} [Fintype ι] [DecidableEq ι] {N : ℕ}
 
-/-- the signomial with coefficient vector `w` is nonnegative on ℝⁿ -/
-def NN (α : ι → Fin N → ℝ) (w : ι → ℝ) : Prop :=
-  ∀ x : Fin N → ℝ, 0 ≤ ∑ j, w j * Real.exp (dotp (α j) x)
+/-- the signomial with coefficient vector `w` is nonnegative on the set `X` (a section variable: all of what follows holds for every `X`;
+    `X = Set.univ` is the ordinary case) -/
+def NN (X : Set (Fin N → ℝ)) (α : ι → Fin N → ℝ) (w : ι → ℝ) : Prop :=
+  ∀ x ∈ X, 0 ≤ ∑ j, w j * Real.exp (dotp (α j) x)
 
 /-- an AGE function for the index `k`: nonnegative on ℝⁿ, all coefficients except possibly the `k`-th nonnegative -/
-def AGEf (α : ι → Fin N → ℝ) (k : ι) (w : ι → ℝ) : Prop := NN α w ∧ ∀ j, j ≠ k → 0 ≤ w j
+def AGEf (X : Set (Fin N → ℝ)) (α : ι → Fin N → ℝ) (k : ι) (w : ι → ℝ) : Prop := NN X α w ∧ ∀ j, j ≠ k → 0 ≤ w j
 
-theorem NN_add (α : ι → Fin N → ℝ) (u v : ι → ℝ) (hu : NN α u) (hv : NN α v) : NN α (fun j => u j + v j) := by
-  intro x
+theorem NN_add (X : Set (Fin N → ℝ)) (α : ι → Fin N → ℝ) (u v : ι → ℝ) (hu : NN X α u) (hv : NN X α v) : NN X α (fun j => u j + v j) := by
+  intro x hx
   have : ∑ j, (u j + v j) * Real.exp (dotp (α j) x)
       = ∑ j, u j * Real.exp (dotp (α j) x) + ∑ j, v j * Real.exp (dotp (α j) x) := by
     rw [← Finset.sum_add_distrib]; apply Finset.sum_congr rfl; intro j _; ring
-  rw [this]; exact add_nonneg (hu x) (hv x)
+  rw [this]; exact add_nonneg (hu x hx) (hv x hx)
 
-theorem NN_smul (α : ι → Fin N → ℝ) (a : ℝ) (u : ι → ℝ) (ha : 0 ≤ a) (hu : NN α u) : NN α (fun j => a * u j) := by
-  intro x
+theorem NN_smul (X : Set (Fin N → ℝ)) (α : ι → Fin N → ℝ) (a : ℝ) (u : ι → ℝ) (ha : 0 ≤ a) (hu : NN X α u) : NN X α (fun j => a * u j) := by
+  intro x hx
   have : ∑ j, (a * u j) * Real.exp (dotp (α j) x) = a * ∑ j, u j * Real.exp (dotp (α j) x) := by
     rw [Finset.mul_sum]; apply Finset.sum_congr rfl; intro j _; ring
-  rw [this]; exact mul_nonneg ha (hu x)
+  rw [this]; exact mul_nonneg ha (hu x hx)
 
-theorem NN_zero (α : ι → Fin N → ℝ) : NN α (fun _ => (0 : ℝ)) := by
-  intro x; simp
+theorem NN_zero (X : Set (Fin N → ℝ)) (α : ι → Fin N → ℝ) : NN X α (fun _ => (0 : ℝ)) := by
+  intro x _; simp
 
 /-- nonnegative combinations of nonnegative signomials -/
-theorem NN_sum (α : ι → Fin N → ℝ) (F : Finset ι) (r : ι → ℝ) (v : ι → ι → ℝ)
-    (h : ∀ l ∈ F, 0 ≤ r l ∧ NN α (v l)) : NN α (fun j => ∑ l ∈ F, r l * v l j) := by
-  intro x
+theorem NN_sum (X : Set (Fin N → ℝ)) (α : ι → Fin N → ℝ) (F : Finset ι) (r : ι → ℝ) (v : ι → ι → ℝ)
+    (h : ∀ l ∈ F, 0 ≤ r l ∧ NN X α (v l)) : NN X α (fun j => ∑ l ∈ F, r l * v l j) := by
+  intro x hx
   have : ∑ j, (∑ l ∈ F, r l * v l j) * Real.exp (dotp (α j) x)
       = ∑ l ∈ F, r l * ∑ j, v l j * Real.exp (dotp (α j) x) := by
     simp_rw [Finset.sum_mul, Finset.mul_sum]
@@ -53,48 +54,48 @@ theorem NN_sum (α : ι → Fin N → ℝ) (F : Finset ι) (r : ι → ℝ) (v :
     apply Finset.sum_congr rfl; intro l _
     apply Finset.sum_congr rfl; intro j _; ring
   rw [this]
-  exact Finset.sum_nonneg (fun l hl => mul_nonneg (h l hl).1 ((h l hl).2 x))
+  exact Finset.sum_nonneg (fun l hl => mul_nonneg (h l hl).1 ((h l hl).2 x hx))
 
-theorem AGEf_add_smul (α : ι → Fin N → ℝ) (k : ι) (u v : ι → ℝ) (t : ℝ) (ht : 0 ≤ t)
-    (hu : AGEf α k u) (hv : NN α v) (hoff : ∀ j, j ≠ k → 0 ≤ u j + t * v j) :
-    AGEf α k (fun j => u j + t * v j) :=
-  ⟨NN_add α u (fun j => t * v j) hu.1 (NN_smul α t v ht hv), hoff⟩
+theorem AGEf_add_smul (X : Set (Fin N → ℝ)) (α : ι → Fin N → ℝ) (k : ι) (u v : ι → ℝ) (t : ℝ) (ht : 0 ≤ t)
+    (hu : AGEf X α k u) (hv : NN X α v) (hoff : ∀ j, j ≠ k → 0 ≤ u j + t * v j) :
+    AGEf X α k (fun j => u j + t * v j) :=
+  ⟨NN_add X α u (fun j => t * v j) hu.1 (NN_smul X α t v ht hv), hoff⟩
 
-theorem AGEf_smul (α : ι → Fin N → ℝ) (k : ι) (u : ι → ℝ) (a : ℝ) (ha : 0 ≤ a) (hu : AGEf α k u) :
-    AGEf α k (fun j => a * u j) :=
-  ⟨NN_smul α a u ha hu.1, fun j hj => mul_nonneg ha (hu.2 j hj)⟩
+theorem AGEf_smul (X : Set (Fin N → ℝ)) (α : ι → Fin N → ℝ) (k : ι) (u : ι → ℝ) (a : ℝ) (ha : 0 ≤ a) (hu : AGEf X α k u) :
+    AGEf X α k (fun j => a * u j) :=
+  ⟨NN_smul X α a u ha hu.1, fun j hj => mul_nonneg ha (hu.2 j hj)⟩
 
 /-- what the reduction delivers for a coefficient vector `c` -/
-def SignReduced (α : ι → Fin N → ℝ) (c : ι → ℝ) : Prop :=
+def SignReduced (X : Set (Fin N → ℝ)) (α : ι → Fin N → ℝ) (c : ι → ℝ) : Prop :=
   ∃ ŵ : ι → ι → ℝ,
-    (∀ i, c i < 0 → AGEf α i (ŵ i)) ∧
+    (∀ i, c i < 0 → AGEf X α i (ŵ i)) ∧
     (∀ i l, c i < 0 → c l < 0 → l ≠ i → ŵ i l = 0) ∧
     (∀ l, ∑ i ∈ Finset.univ.filter (fun i => c i < 0), ŵ i l ≤ c l)
 
-theorem signReduced_of_nonneg (α : ι → Fin N → ℝ) (c : ι → ℝ) (h : ∀ l, 0 ≤ c l) : SignReduced α c := by
+theorem signReduced_of_nonneg (X : Set (Fin N → ℝ)) (α : ι → Fin N → ℝ) (c : ι → ℝ) (h : ∀ l, 0 ≤ c l) : SignReduced X α c := by
   refine ⟨fun _ _ => 0, ?_, ?_, ?_⟩
   · intro i hi; exact absurd (h i) (not_le.mpr hi)
   · intro i l hi; exact absurd (h i) (not_le.mpr hi)
   · intro l; simp [h l]
 
-theorem signReduced_congr (α : ι → Fin N → ℝ) (c c' : ι → ℝ) (h : ∀ l, c l = c' l) (hc : SignReduced α c) :
-    SignReduced α c' := by
+theorem signReduced_congr (X : Set (Fin N → ℝ)) (α : ι → Fin N → ℝ) (c c' : ι → ℝ) (h : ∀ l, c l = c' l) (hc : SignReduced X α c) :
+    SignReduced X α c' := by
   have : c = c' := funext h
   rw [← this]; exact hc
 
 /-- REDISTRIBUTION of one member `k` of a family over the others with weights `s` that sum to one: the sum is unchanged, the members
     stay AGE functions as long as the entries at `k` stay nonnegative -/
-theorem redistribute (α : ι → Fin N → ℝ) (T : Finset ι) (w : ι → ι → ℝ) (k : ι) (hk : k ∈ T) (s : ι → ℝ)
-    (hw : ∀ m ∈ T, AGEf α m (w m))
+theorem redistribute (X : Set (Fin N → ℝ)) (α : ι → Fin N → ℝ) (T : Finset ι) (w : ι → ι → ℝ) (k : ι) (hk : k ∈ T) (s : ι → ℝ)
+    (hw : ∀ m ∈ T, AGEf X α m (w m))
     (hs0 : ∀ m ∈ T.erase k, 0 ≤ s m) (hs1 : ∑ m ∈ T.erase k, s m = 1)
     (hkk : ∀ m ∈ T.erase k, 0 ≤ w m k + s m * w k k) :
-    (∀ m ∈ T.erase k, AGEf α m (fun l => w m l + s m * w k l)) ∧
+    (∀ m ∈ T.erase k, AGEf X α m (fun l => w m l + s m * w k l)) ∧
     (∀ l, ∑ m ∈ T.erase k, (w m l + s m * w k l) = ∑ m ∈ T, w m l) := by
   constructor
   · intro m hm
     have hmT : m ∈ T := Finset.mem_of_mem_erase hm
     have hmk : m ≠ k := Finset.ne_of_mem_erase hm
-    apply AGEf_add_smul α m (w m) (w k) (s m) (hs0 m hm) (hw m hmT) (hw k hk).1
+    apply AGEf_add_smul X α m (w m) (w k) (s m) (hs0 m hm) (hw m hmT) (hw k hk).1
     intro l hl
     by_cases hlk : l = k
     · subst hlk; exact hkk m hm
@@ -104,15 +105,15 @@ theorem redistribute (α : ι → Fin N → ℝ) (T : Finset ι) (w : ι → ι 
     exact Finset.add_sum_erase T (fun m => w m l) hk
 
 /-- the reduction, by induction on the number of AGE functions in the decomposition -/
-theorem sign_reduction_aux (α : ι → Fin N → ℝ) : ∀ (n : ℕ) (T : Finset ι) (w : ι → ι → ℝ), T.card = n →
-    (∀ k ∈ T, AGEf α k (w k)) → SignReduced α (fun l => ∑ k ∈ T, w k l) := by
+theorem sign_reduction_aux (X : Set (Fin N → ℝ)) (α : ι → Fin N → ℝ) : ∀ (n : ℕ) (T : Finset ι) (w : ι → ι → ℝ), T.card = n →
+    (∀ k ∈ T, AGEf X α k (w k)) → SignReduced X α (fun l => ∑ k ∈ T, w k l) := by
   intro n
   induction n with
   | zero =>
     intro T w hT _
     have : T = ∅ := Finset.card_eq_zero.mp hT
     subst this
-    exact signReduced_of_nonneg α _ (fun l => by simp)
+    exact signReduced_of_nonneg X α _ (fun l => by simp)
   | succ n ih =>
     intro T w hT hw
     set c : ι → ℝ := fun l => ∑ k ∈ T, w k l with hc
@@ -141,7 +142,7 @@ theorem sign_reduction_aux (α : ι → Fin N → ℝ) : ∀ (n : ℕ) (T : Fins
           Finset.sum_nonneg (fun m hm => (hw m (Finset.mem_of_mem_erase hm)).2 k (Finset.ne_of_mem_erase hm).symm)
         by_cases hkk : 0 ≤ w k k
         · -- everything onto k'
-          obtain ⟨h1, h2⟩ := redistribute α T w k hk (fun m => if m = k' then 1 else 0) hw
+          obtain ⟨h1, h2⟩ := redistribute X α T w k hk (fun m => if m = k' then 1 else 0) hw
             (fun m _ => by split_ifs <;> norm_num)
             (by rw [Finset.sum_ite_eq' (T.erase k) k']; simp [hk'])
             (fun m hm => by
@@ -150,11 +151,11 @@ theorem sign_reduction_aux (α : ι → Fin N → ℝ) : ∀ (n : ℕ) (T : Fins
               · nlinarith
               · linarith)
           have := ih (T.erase k) (fun m l => w m l + (if m = k' then 1 else 0) * w k l) hcard h1
-          exact signReduced_congr α _ _ h2 this
+          exact signReduced_congr X α _ _ h2 this
         · push Not at hkk
           set D : ℝ := ∑ m ∈ T.erase k, w m k with hD
           have hDpos : 0 < D := by linarith
-          obtain ⟨h1, h2⟩ := redistribute α T w k hk (fun m => w m k / D) hw
+          obtain ⟨h1, h2⟩ := redistribute X α T w k hk (fun m => w m k / D) hw
             (fun m hm => div_nonneg ((hw m (Finset.mem_of_mem_erase hm)).2 k (Finset.ne_of_mem_erase hm).symm) hDpos.le)
             (by rw [← Finset.sum_div, ← hD]; exact div_self hDpos.ne')
             (fun m hm => by
@@ -163,7 +164,7 @@ theorem sign_reduction_aux (α : ι → Fin N → ℝ) : ∀ (n : ℕ) (T : Fins
               rw [this]
               exact mul_nonneg hmk (div_nonneg (by linarith) hDpos.le))
           have := ih (T.erase k) (fun m l => w m l + w m k / D * w k l) hcard h1
-          exact signReduced_congr α _ _ h2 this
+          exact signReduced_congr X α _ _ h2 this
     · -- every member's own index is negative in the total
       push Not at hA
       have hTne : T.Nonempty := by
@@ -195,11 +196,11 @@ theorem sign_reduction_aux (α : ι → Fin N → ℝ) : ∀ (n : ℕ) (T : Fins
         div_nonneg ((hw k (Finset.mem_of_mem_erase hk)).2 j (Finset.ne_of_mem_erase hk).symm) hapos.le
       -- the other members absorb what they carry at j
       set w' : ι → ι → ℝ := fun k l => w k l + t k * w j l with hw'
-      have hw'v : ∀ k ∈ T.erase j, AGEf α k (w' k) := by
+      have hw'v : ∀ k ∈ T.erase j, AGEf X α k (w' k) := by
         intro k hk
         have hkT := Finset.mem_of_mem_erase hk
         have hkj := Finset.ne_of_mem_erase hk
-        apply AGEf_add_smul α k (w k) (w j) (t k) (ht0 k hk) (hw k hkT) (hw j hj).1
+        apply AGEf_add_smul X α k (w k) (w j) (t k) (ht0 k hk) (hw k hkT) (hw j hj).1
         intro l hl
         by_cases hlj : l = j
         · subst hlj
@@ -304,8 +305,8 @@ theorem sign_reduction_aux (α : ι → Fin N → ℝ) : ∀ (n : ℕ) (T : Fins
         by_cases hij : i = j
         · subst hij
           simp only [if_true]
-          refine ⟨NN_add α _ _ (NN_smul α θ (w i) hθpos.le (hw i hj).1)
-            (NN_sum α (T.erase i) r ŵ (fun m hm => ⟨hr0 m hm, (hŵ1 m ((hneg'' m).mpr hm)).1⟩)), ?_⟩
+          refine ⟨NN_add X α _ _ (NN_smul X α θ (w i) hθpos.le (hw i hj).1)
+            (NN_sum X α (T.erase i) r ŵ (fun m hm => ⟨hr0 m hm, (hŵ1 m ((hneg'' m).mpr hm)).1⟩)), ?_⟩
           intro l hl
           by_cases hlT : l ∈ T.erase i
           · show 0 ≤ θ * w i l + ∑ m ∈ T.erase i, r m * ŵ m l
@@ -317,7 +318,7 @@ theorem sign_reduction_aux (α : ι → Fin N → ℝ) : ∀ (n : ℕ) (T : Fins
             exact mul_nonneg (hr0 m hm) ((hŵ1 m ((hneg'' m).mpr hm)).2 l (fun e => hlT (e ▸ hm)))
         · simp only [hij, if_false]
           have hiT' : i ∈ T.erase j := Finset.mem_erase.mpr ⟨hij, hiT⟩
-          exact AGEf_smul α i (ŵ i) (1 - r i) (by linarith [hr1 i hiT']) (hŵ1 i ((hneg'' i).mpr hiT'))
+          exact AGEf_smul X α i (ŵ i) (1 - r i) (by linarith [hr1 i hiT']) (hŵ1 i ((hneg'' i).mpr hiT'))
       · intro i l hi hl hli
         have hiT : i ∈ T := (hnegT i).mp hi
         have hlT : l ∈ T := (hnegT l).mp hl
@@ -350,8 +351,8 @@ theorem sign_reduction_aux (α : ι → Fin N → ℝ) : ∀ (n : ℕ) (T : Fins
 
 /-- THE SIGN-PATTERN REDUCTION: a sum of AGE functions with total coefficient vector `c` is (entrywise at most `c` and) a sum of AGE
     functions indexed by the negative entries of `c`, each of which vanishes at the other negative entries -/
-theorem sign_reduction (α : ι → Fin N → ℝ) (T : Finset ι) (w : ι → ι → ℝ) (hw : ∀ k ∈ T, AGEf α k (w k)) :
-    SignReduced α (fun l => ∑ k ∈ T, w k l) :=
-  sign_reduction_aux α T.card T w rfl hw
+theorem sign_reduction (X : Set (Fin N → ℝ)) (α : ι → Fin N → ℝ) (T : Finset ι) (w : ι → ι → ℝ) (hw : ∀ k ∈ T, AGEf X α k (w k)) :
+    SignReduced X α (fun l => ∑ k ∈ T, w k l) :=
+  sign_reduction_aux X α T.card T w rfl hw
 
 end Sageopt.Analysis
